@@ -338,7 +338,7 @@ def run(ctx, rep, tier):
                     for delta, sub, endk, end in it.bodies:
                         evs = events_of(sub)
                         has_free = any(e.kind == "FREE" for e in evs)
-                        conds = {k: b for k, b in delta.items()}
+                        conds = {k: b for k, b in delta.items() if b}
                         if has_free and conds == {"out_expr.type == OutputStorageType.STR": True}:
                             ok_cov = True
                         elif has_free:
